@@ -110,7 +110,8 @@ class SendPlan(cf.Plan):
         return self.fail_drain is not None and self.data_writes == self.fail_drain
 
 
-def session(kind: str, names: list[str], stagger: int, plan: SendPlan, after: list[str], M: dict):
+def session(kind: str, names: list[str], stagger: int, plan: SendPlan, after: list[str], M: dict, eof_at: float | None = None,
+            timed: tuple = ()):
     plan.skip_config = kind == "waveshare"
     sess = vloop.Session(plan)
     order: list[str] = []
@@ -131,6 +132,10 @@ def session(kind: str, names: list[str], stagger: int, plan: SendPlan, after: li
         s.at_time(1.0, launch)
         for j, nme in enumerate(after):
             s.at_time(8.0 + j, lambda nme=nme: start(nme))
+        for t, nme in timed:
+            s.at_time(t, lambda nme=nme: start(nme))
+        if eof_at is not None:
+            s.at_time(eof_at, lambda: s.eof(1))
     raw = sess.run(vloop.make_client_factory(kind), scenario, until=20.0)
     sent = [M[nm] for nm in order]
     P = mirror(kind, sent) if kind != "actisense" else [[] for _ in sent]
@@ -161,9 +166,9 @@ def session(kind: str, names: list[str], stagger: int, plan: SendPlan, after: li
     statuses = [e["s"] for e in raw if e["e"] == "Status"][1:]
     opens = sum(1 for e in raw if e["e"] == "Open")
     bad = [i + 1 for i, nm in enumerate(order) if nm.startswith("bad") or kind == "actisense"]
-    injected = plan.fail_write is not None or plan.fail_drain is not None
+    injected = plan.fail_write is not None or plan.fail_drain is not None or eof_at is not None
     return {"n": [len(p) for p in P], "wire": wire, "failed": sorted(set(failed)), "statuses": statuses, "opens": opens,
-            "bad": bad, "clean": not injected, "complete": not injected}, order
+            "bad": bad, "clean": not injected, "complete": not injected or eof_at is not None}, order
 
 
 def bind(chk: Check, tier: str, seed: int):
@@ -190,6 +195,15 @@ def bind(chk: Check, tier: str, seed: int):
                     r, order = session(kind, ["multi", "single"], 0, plan, ["single2", "multi2"], M)
                     recs.append(r)
                     meta.append((kind, "multi+single", f"drain={mask}", f"{how}-fails@{j}", "fault"))
+        # the link is replaced (end of stream seen by the receive loop) while a multi-frame send is stalled between two
+        # of its frames by back-pressure; another send starts on the new link: still one message at a time
+        for eof_at in (1.07, 1.12, 1.22):
+            for t2 in (eof_at + 0.03, eof_at + 0.08, eof_at + 0.2):
+                for second in ("multi2", "single"):
+                    plan = SendPlan(drain_mask="all")
+                    r, order = session(kind, ["multi"], 0, plan, [], M, eof_at=eof_at, timed=((t2, second),))
+                    recs.append(r)
+                    meta.append((kind, f"multi+{second}", "drain=all", f"eof@{eof_at}+send@{t2:.2f}", "link-replaced"))
         # messages that cannot be sent
         for badname in ("bad-missing", "bad-range", "bad-pgn", "bad-priority", "bad-source", "bad-pgn-wide"):
             for names in ([badname], ["single", badname, "multi"], [badname, badname]):
